@@ -92,10 +92,14 @@ CHECKS["C01"] = dict(
          "list stays sorted with an adjacent cursor pair, find_pos finds every pointer the pool handed out from every reachable cursor state, "
          "valid releases never fail; the small list keeps its chunk ring sorted with valid cursors, its two-cursor chunk search finds the "
          "chunk of every live node and the pointer checks never fire for one; invariant established by the constructors. memory_stack: placement invariant for all histories with nested "
-         "marker scopes. Iteration regions: C07 theorems. memory_pool_collection: line-by-line correspondence of "
+         "marker scopes. Iteration regions: C07 theorems. memory_pool_collection over node_pool/array_pool buckets (Props/C01Coll): for ANY history "
+         "of allocate_node/try_allocate_node/deallocate_node (any bucket policy, sizes, environment incl. upstream failure, fences up to 2^32) the live nodes - "
+         "each as long as its bucket's node size, which is at least the requested size (identity and log2 buckets) - are pairwise disjoint, disjoint from every free cell of "
+         "every bucket and from the array of list objects, inside held blocks; the bump pointer stays inside the current block and everything tracked lies below it; "
+         "every bucket list stays well formed; releases of live nodes always succeed; established by the constructor. Arrays on collections and small-node buckets: line-by-line correspondence of "
          "every returned address plus overlap / inside-owned / content-pattern / poison-after-release oracles on the real code in rel/rwdi/dbg.",
     note="partial: proof covers memory_pool over all three list types, memory_stack over growing/fixed sources, iteration regions; "
-         "collections at correspondence+oracle level. Hypothesis n*node_size < 2^64 is necessary (machine-checked "
+         "collections: node operations over intrusive buckets proved, arrays and small-node buckets at correspondence+oracle level. Hypothesis n*node_size < 2^64 is necessary (machine-checked "
          "counterexample, finding D21). Environment hypotheses: blocks well formed and pairwise disjoint, pool object outside its blocks.",
     technique="Lean 4 proof (partition invariant over cells, order-independent; ordered-list structural invariant; induction over histories) + correspondence/oracles")
 CHECKS["C04"] = dict(
@@ -109,7 +113,7 @@ CHECKS["C04"] = dict(
          "block source while the matching list holds a node; m node allocations with >= m free nodes never grow. Tied by state-dump "
          "correspondence of all three lists in rel and dbg.",
     note="multi-array cycles on the unordered list may grow although no cell is lost (fragmented list order; D15, documented limitation; "
-         "recorded finding). Collections: per-list capacity theorems + correspondence, no history theorem yet.",
+         "recorded finding). Collections: per-list capacity theorems + correspondence; the C01 history invariant (Props/C01Coll) gives the partition but no capacity count yet.",
     technique="Lean 4 proof (exact-accounting invariant by induction over histories, list invariants, find_pos correctness) + correspondence")
 CHECKS["C18"] = dict(
     text="Lean theorems over the translator-generated min_block_size formulas and the list insert models: for every node size and count "
